@@ -46,4 +46,7 @@ MODULES = {
              selfattrs={'_seek': INT, '_size': INT},
              cut_at_with=True, early_return='None', fallthrough='Some data', fallthrough_vars=['data']),
     ]),
+    'exefs': dict(file='pyctr/type/exefs.py', kernels=[
+        dict(py='_normalize_path', coq='normalize_path', args=[('p', SEQ)], ret=SEQ),
+    ]),
 }
